@@ -221,11 +221,28 @@ func genC17Walk(r *Rand) *ProgCase {
 	p.Stmts = append(p.Stmts, PStmt{K: "movl", Reg: probeReg(16, r.Intn(8)), Label: "zend"})
 	n := r.Range(2, 5)
 	var lastGroup []PStmt
+	defined := map[string]bool{}
 	for i := 0; i < n; i++ {
 		if i > 0 {
 			mode = 48 - mode
 			superseded(mode)
 			p.Stmts = append(p.Stmts, PStmt{K: "bits", N: int64(mode)})
+		}
+		// other directives between the [BITS] line and the code it governs must not disturb the mode in force
+		if i > 0 && r.Chance(1, 3) {
+			switch r.Intn(5) {
+			case 0:
+				p.Stmts = append(p.Stmts, PStmt{K: "raw", Text: Pick(r, []string{"[INSTRSET \"i486p\"]", "[OPTIMIZE 1]", "[FILE \"w.nas\"]", "[SECTION .text]"}), Tag: "bracket"})
+			case 1:
+				p.Stmts = append(p.Stmts, PStmt{K: "alignb", N: int64(Pick(r, []int{2, 4, 16}))})
+			case 2:
+				nq++
+				p.Stmts = append(p.Stmts, PStmt{K: "equ", Label: fmt.Sprintf("SEL%d", nq), Text: "16", N: 16})
+			case 3:
+				p.Stmts = append(p.Stmts, PStmt{K: "global", Text: "_w1, _w2"})
+			default:
+				p.Stmts = append(p.Stmts, PStmt{K: "data", W: 1, Items: []DItem{numItem(int64(r.Intn(256)), 1), numItem(int64(r.Intn(256)), 0)}})
+			}
 		}
 		// a label branch is often the FIRST statement after the switch (its ocode is rewritten in pass 2)
 		jumped := false
@@ -250,7 +267,24 @@ func genC17Walk(r *Rand) *ProgCase {
 				jumped = true
 			}
 		}
+		// the other statements that embed a label and are sized by the mode: LGDT [label] (0F 01 /2 with a 16- or 32-bit
+		// address), MOV reg,[label]; targets lie ahead (zend) or behind (the previous segment's label)
+		if r.Chance(1, 3) {
+			tl := "zend"
+			if i > 0 && r.Bool() {
+				tl = fmt.Sprintf("M%d", i-1)
+				if !defined[tl] {
+					tl = "zend"
+				}
+			}
+			if r.Bool() {
+				p.Stmts = append(p.Stmts, PStmt{K: "lgdt", Label: tl})
+			} else {
+				p.Stmts = append(p.Stmts, PStmt{K: "meml", Reg: probeReg(mode, r.Intn(8)), Label: tl})
+			}
+		}
 		if jumped || r.Bool() {
+			defined[l] = true
 			p.Stmts = append(p.Stmts, PStmt{K: "label", Label: l}, PStmt{K: "movl", Reg: probeReg(mode, r.Intn(8)), Label: l})
 		}
 	}
@@ -277,7 +311,7 @@ func init() {
 			}
 		}
 		rep.Rule = "seeded programs of 1-5 segments, each a label-free sequence from the clean pool introduced by [BITS 16|32] (the first optionally by nothing), with the first directive placed among comments, EQUs, GLOBAL/EXTERN, other [..] directives; " +
-			"oracle (a): out(P) must equal the concatenation of out([BITS m_i]; segment_i) assembled separately; (b) programs that switch mode 1-4 times with labels: the walker decodes every segment under its own mode and all embedded label values, including a label after the last statement, must be true offsets (sizes follow the mode too); distinct = (segments, first directive, noise, position) cells"
+			"oracle (a): out(P) must equal the concatenation of out([BITS m_i]; segment_i) assembled separately; (b) programs that switch mode 1-4 times with labels: the walker decodes every segment under its own mode and all embedded label values, including a label after the last statement, must be true offsets (sizes follow the mode too); a third of the switches are followed by another directive ([INSTRSET]/[OPTIMIZE]/[FILE]/[SECTION], ALIGNB, an EQU, GLOBAL, DB) before the code, and a third of the segments hold LGDT [label] or MOV reg,[label] with the label ahead or behind; distinct = (segments, first directive, noise, position) cells"
 		outs := RunCases(env, cases)
 		xcheckProg(env, rep, outs)
 		for i := 0; i < len(cases) && len(rep.Samples) < 3; i += len(cases)/3 + 1 {
